@@ -512,9 +512,8 @@ func showInJS(env *env, out io.Writer, value any) error {
 		}
 		return err
 	case reflect.Slice:
-		if b, ok := value.([]byte); ok {
-			w := newStringWriter(out)
-			return escapeBytes(w, b, true)
+		if v.Type().Elem().Kind() == reflect.Uint8 {
+			return escapeBytes(w, v.Bytes(), true)
 		}
 		if v.IsNil() {
 			s = "null"
@@ -715,13 +714,12 @@ func showInJSON(env *env, out io.Writer, value any) error {
 		}
 		return err
 	case reflect.Slice:
-		if b, ok := value.([]byte); ok {
-			w := newStringWriter(out)
-			return escapeBytes(w, b, true)
-		}
 		if v.IsNil() {
 			s = "null"
 			break
+		}
+		if v.Type().Elem().Kind() == reflect.Uint8 {
+			return escapeBytes(w, v.Bytes(), true)
 		}
 		fallthrough
 	case reflect.Array:
